@@ -287,10 +287,13 @@ def gen_dir_cases(rng, W, seeds, n):
                 files[fname] = json.dumps(adversarial_json(rng, w), ensure_ascii=False)
             elif k < 0.8:
                 files[fname] = {"hex": mutate_bytes(rng, json.dumps(w).encode(), allbin).hex()}
-            elif k < 0.9:
+            elif k < 0.84:
                 files[fname] = {"dir": True}
-            else:
+            elif k < 0.88:
                 files[fname] = {"symlink": fname}
+            else:
+                # a "link file" that is not a regular file at all
+                files[fname] = {"symlink": rng.choice(["/dev/zero", "/dev/zero", "/dev/urandom", "/dev/null", "/proc/self/environ", "/", "."])}
         cases.append({"op": "verify", "layout": None, "_layout_doc": layout, "caller_keys": [[W.kid("ed0"), W.pub("ed0")]], "files": files,
                       "work_files": {}, "step_name": None, "reps": 1, "meta": {"cls": "hostile_link_dir"}})
     return cases
@@ -330,6 +333,35 @@ def gen_signed_layout_cases(rng, W, seeds, n, binpath):
         cases.append({"op": "verify", "layout": json.dumps(w, ensure_ascii=False), "caller_keys": [[W.kid("ed0"), W.pub("ed0")]],
                       "files": files, "work_files": {}, "step_name": rng.choice([None, "x", "é"]), "reps": 1,
                       "meta": {"cls": "hostile_signed_layout"}})
+    return cases
+
+
+def gen_inspection_tree_cases(rng, W, binpath, n):
+    """a valid layout with one inspection, verified in a working directory that contains things other than regular
+    files (symlinks to devices / directories / themselves, deep nesting): recording the inspection's artifacts must
+    terminate"""
+    reqs = []
+    for i in range(n):
+        node = pipeline.make_node(rng, W, 0, ["ed0"], nsteps=1)
+        node["layout"]["inspect"] = [scen.mk_inspection("look", ["sh", "-c", "true"], [["ALLOW", "*"]], [["ALLOW", "*"]])]
+        pipeline.collect_requests(node, reqs)
+        reqs[-1]  # noqa
+    wires = scen.sign_all(binpath, reqs, nproc=1)
+    cases = []
+    i = 0
+    for k in range(n):
+        # requests are [layout, link] per node (one step, one link)
+        lw, link = wires[i], wires[i + 1]
+        i += 2
+        step = lw["signed"]["steps"][0]["name"]
+        signer = link["signatures"][0]["keyid"][:8]
+        work = {"plain.txt": "x"}
+        for j in range(rng.choice([1, 2, 3])):
+            work[f"d{j}/special{j}"] = {"symlink": rng.choice(["/dev/zero", "/dev/urandom", "/dev/null", "/dev/full", ".", "..", "special%d" % j,
+                                                                 "/proc/self/fd/0", "/nonexistent/target", "../plain.txt"])}
+        cases.append({"op": "verify", "layout": json.dumps(lw), "caller_keys": [[W.kid("ed0"), W.pub("ed0")]],
+                      "files": {f"{step}.{signer}.link": json.dumps(link)}, "work_files": work, "step_name": None, "reps": 1,
+                      "meta": {"cls": "inspection_over_special_files"}})
     return cases
 
 
@@ -381,6 +413,13 @@ def judge(case, obs, res):
             res.inconclusive.append(f"verify op failed: {str(obs)[:200]}")
             return None
         r = obs["runs"][0]
+        if r["v"] == "err" and "OutOfMemory" in str(r.get("e", "")):
+            # the call only came back because it exhausted the supervisor's address-space budget while reading an input
+            # of a few bytes (a symbolic link): without the budget it would not terminate
+            res.violate("in_toto_verify:unbounded-read-until-memory-exhausted",
+                        f"final-product verification read without bound until the address-space limit was hit ({r['e']}); "
+                        f"files: { {k: v for k, v in case['files'].items() if isinstance(v, dict)} }", case, obs, "error without reading the device")
+            return "resource"
         if r["v"] == "panic":
             res.violate(f"in_toto_verify:{panic_sig('verify', r['panic'])}", f"final-product verification panicked at {r['panic']['loc']}: {r['panic']['msg'][:200]}",
                         case, obs, "ok or error")
@@ -432,9 +471,10 @@ def shard(binpath, seed, sh, n, env=None, runner=None, tag="native"):
     cases += gen_signed_layout_cases(rng, W, seeds, max(20, n // 20), common.HARNESS / "target" / "release" / "itv")
     if sh == 0 and not runner:
         cases += gen_large_cases(rng, seeds)
+    cases += gen_inspection_tree_cases(rng, W, common.HARNESS / "target" / "release" / "itv", max(6, n // 300))
     # sanitizer / valgrind runs reserve huge virtual ranges: no address-space limit there
     obs = common.run_batch(binpath, cases, cpu_s=300 if not runner else 3000, wall_s=1500 if not runner else 3400, env=env, runner=runner,
-                           as_bytes=0 if (env or runner) else 8 << 30)
+                           as_bytes=0 if (env or runner) else 3 << 30)
     for c, o in zip(cases, obs):
         r = judge(c, o, res)
         if r == "supervisor":
@@ -641,7 +681,7 @@ def main(ctx):
                                     "statement_json", "predicate_json", "envelope")] + \
           ["ep:metablock:ok", "ep:pubkey_json:ok", "ep:spki:ok", "ep:pk8:ok", "ep:rules:ok", "ep:verify:err", "input:adversarial_json",
            "input:byte_mutation", "input:random_bytes", "input:hostile_link_dir", "input:rules_adversarial", "input:hostile_signed_layout",
-           "input:large"]
+           "input:large", "input:inspection_over_special_files"]
     return common.finish(
         PROP, ctx.tier, ctx.seed, res, t0=ctx.t0,
         rule="28 entry points (JSON decoders of every public type through slice/str, metadata wrappers, raw builder, key importers "
